@@ -51,7 +51,7 @@ def finish_proof_status(rep, ctx, found_input):
                        'log': (ctx.props.get('log') or ctx.coq_log)[-3000:]}, no_input=True)
 
 
-def standard_programs(ctx, n_random, n_per_carrier=2, full=False, streams=('corpus', 'slots', 'product', 'random', 'ood')):
+def standard_programs(ctx, n_random, n_per_carrier=2, full=False, streams=('corpus', 'slots', 'product', 'random', 'ood', 'special')):
     rng = random.Random(ctx.seed * 7919 + 13)
     progs = []
     if 'corpus' in streams:
@@ -64,6 +64,8 @@ def standard_programs(ctx, n_random, n_per_carrier=2, full=False, streams=('corp
         progs += gp.random_programs(rng, n_random)
     if 'ood' in streams:
         progs += gp.out_of_domain(rng)
+    if 'special' in streams:
+        progs += gp.special_programs()
     return progs
 
 
